@@ -17,7 +17,7 @@ if ! (cd "$S/repo/v5" && go test -count=1 ./... ) >"$S/test.log" 2>&1; then echo
 [ -n "$budget" ] && export VERIF_BUDGET_S=$budget
 VERIF_SCRATCH="$S" "$V/bin/drv" -prop "$prop" -tier quick -repo "$S/repo" > "$S/check.log" 2>&1
 rc=$?
-sigs=$(grep -o "^violation: signature=[^ ]* class=[^ ]* count=[0-9]*" "$S/check.log" | sed 's/violation: signature=//; s/ class=[^ ]* count=/ x/' | sort -u | head -8 | tr '\n' ';')
+sigs=$(grep -o "^violation: signature=[^ ]* class=[^ ]* count=[0-9]*" "$S/check.log" | sed 's/violation: signature=//; s/ class=[^ ]* count=/ x/' | sort -t x -k2 -n -r | head -8 | tr '\n' ';')
 case $rc in
   1) echo "RESULT $prop $patch CAUGHT signatures: $sigs";;
   0) echo "RESULT $prop $patch ESCAPED"; grep "^runs=" "$S/check.log";;
